@@ -309,6 +309,13 @@ func c10(c *hx.Ctx) int {
 
 func c10corpus(quick bool) []string {
 	docs := append([]string(nil), c10multi...)
+	// several operations (some without parameters, responses without headers, shared status codes)
+	// each carrying a rejected default or example: whatever is carried over from one visited operation
+	// to the next makes the outcome depend on the order in which operations are visited
+	sites := c09pairSites()
+	for _, pair := range [][2]int{{0, 1}, {1, 7}, {0, 2}, {2, 7}, {0, 4}} {
+		docs = append(docs, c09pairDoc([]c09site{sites[pair[0]], sites[pair[1]]}, "default"), c09pairDoc([]c09site{sites[pair[0]], sites[pair[1]]}, "example"))
+	}
 	all := allCorpora(quick)
 	if quick && len(all) > 30 {
 		// every k-th document so that all providers are represented
